@@ -77,8 +77,18 @@ Devs(e) ==
       \* the parser's errors, then at most one from the validation (which unknown %epp is unspecified)
       allowed == { m.errs \o v : v \in Y!Validate(m.a) }
   IN IF looped THEN { <<"the transcribed parser does not terminate on this input", 0>> }
-     ELSE (IF ia = ma THEN {} ELSE { <<"abstract syntax tree # model", [f \in {g \in DOMAIN ia : ia[g] # ma[g]} |-> <<ia[f], ma[f]>>]>> })
-          \cup (IF ierrs \in allowed THEN {} ELSE { <<"errors # model", <<ierrs, allowed>> >> })
+     ELSE \* WHICH errors an invalid text is rejected with (and what is left of its AST) is beyond the
+          \* listed properties: such differences are informational; acceptance, and everything about
+          \* an accepted text, is not
+          LET maccepts == <<>> \in allowed
+              mrejects == \A x \in allowed : x # <<>> IN
+          (IF ierrs = <<>> /\ mrejects THEN { <<"text accepted although the transcribed parser rejects it", allowed>> }
+           ELSE IF ierrs # <<>> /\ ~mrejects THEN { <<"text rejected although the transcribed parser accepts it", ierrs>> }
+           ELSE IF ierrs \in allowed THEN {} ELSE { <<"INFO: errors # model (both reject the text)", <<ierrs, allowed>> >> })
+          \cup (IF ia = ma THEN {}
+                ELSE LET diff == [f \in {g \in DOMAIN ia : ia[g] # ma[g]} |-> <<ia[f], ma[f]>>] IN
+                     IF ierrs = <<>> /\ maccepts THEN { <<"abstract syntax tree # model", diff>> }
+                     ELSE { <<"INFO: abstract syntax tree of a rejected text # model", diff>> })
           \* a valid AST: the grammar object made of it (text -> grammar, C10)
           \cup (IF e.res.grm.built /\ ia = ma /\ ierrs = <<>>
                 THEN LET ig == IGrm(e.res.grm)  mg == G!GrammarOf(m.a, e.kind) IN
